@@ -605,6 +605,19 @@ def s_layout_unchecked(ex, p, callee, argv, lhs):
     ex.write(p, r, pa + ("align",), argv[1])
 
 
+def s_layout_checked(ex, p, callee, argv, lhs):
+    """Layout::from_size_align(size, align) -> Result<Layout, LayoutError>: Ok iff align is a power of two and
+    size <= isize::MAX - (align - 1) (the documented contract)"""
+    size, align = ex.as_bv(argv[0])[1], ex.as_bv(argv[1])[1]
+    pow2 = "(and (not (= %s %s)) (= (bvand %s (bvsub %s %s)) %s))" % (align, bvconst(0), align, align, bvconst(1), bvconst(0))
+    fits = "(bvule %s (bvsub %s (bvsub %s %s)))" % (size, bvconst((1 << 63) - 1), align, bvconst(1))
+    r, pa, _ = ex.place(p, parse_place(lhs))
+    ex.write(p, r, pa + ("discr",), ("bv", "(ite (and %s %s) %s %s)" % (pow2, fits, bvconst(0), bvconst(1)), 64))
+    ex.write(p, r, pa + (("as", "Ok"), 0, "size"), argv[0])
+    ex.write(p, r, pa + (("as", "Ok"), 0, "align"), argv[1])
+    p.events.append(("layout_checked", callee, [argv[0], argv[1]]))
+
+
 def s_alloc(kind):
     def h(ex, p, callee, argv, lhs):
         def lay(v):
@@ -674,6 +687,7 @@ SUMMARIES = [
     (r"Layout::size$", s_pseudo("size")),
     (r"Layout::align$", s_pseudo("align")),
     (r"Layout::from_size_align_unchecked$", s_layout_unchecked),
+    (r"Layout::from_size_align$", s_layout_checked),
     (r"<impl usize>::checked_mul$", s_checked("mul")),
     (r"<impl usize>::checked_add$", s_checked("add")),
     (r"<impl usize>::checked_sub$", s_checked("sub")),
